@@ -17,6 +17,7 @@ type c10X struct {
 	InjectForm int // what is injected: 0 two command lines, 1 an unterminated run just below the line limit, 2 a run longer than the limit
 	AuthBE     bool
 	TLSBdat    bool  // a chunked message is sent inside TLS under a size limit
+	TLSData    bool  // a DATA message in plaintext before the upgrade and another inside TLS
 	FailedHS   bool  // the handshake after the 220 fails (no ClientHello but a line of text): the connection goes on in plaintext
 	FailIdx    []int // step indexes after the failed handshake: EHLO, QUIT
 	StartIdx   int
@@ -31,7 +32,7 @@ type c10X struct {
 	TLSNoEhlo bool // inside TLS the server refuses EHLO: the client falls back to HELO and knows no extension
 }
 
-var c10Pre = []string{"greeted", "authenticated", "mid-transaction", "mid-BDAT"}
+var c10Pre = []string{"greeted", "authenticated", "mid-transaction", "mid-BDAT", "after-a-DATA-message"}
 
 func genC10(t *Tape, tier string) *Scenario {
 	sc := &Scenario{Prop: "C10"}
@@ -45,7 +46,7 @@ func genC10(t *Tape, tier string) *Scenario {
 	}
 	x.TLSMode = []int{tlsStart, tlsStart, tlsStart, tlsNone, tlsImplicit}[t.Named("c10tls", 5)]
 	sc.Srv.TLS = x.TLSMode
-	x.Pre = t.Named("c10pre", 4)
+	x.Pre = t.Named("c10pre", 5)
 	x.Inject = t.Named("c10inject", 3)
 	x.AuthBE = x.Pre == 1 || t.Bool()
 	sc.Srv.InsecureAuth = true
@@ -63,6 +64,14 @@ func genC10(t *Tape, tier string) *Scenario {
 	if x.Pre >= 2 {
 		steps = append(steps, Step{Kind: kMail, Data: line("MAIL FROM:<ok-plain@a.example>"), Wait: 1},
 			Step{Kind: kRcpt, Data: line("RCPT TO:<ok-plainrcpt@b.example>"), Wait: 1})
+	}
+	if x.Pre == 4 {
+		// a whole message went through in plaintext: whatever the DATA path set up for it
+		// (readers, buffers) belongs to the plaintext connection
+		steps = append(steps, Step{Kind: kData, Data: []byte("DATA\r\n"), Wait: 1},
+			Step{Kind: kBody, Data: []byte("sent in the clear\r\n.\r\n"), Need: 354, Wait: 1})
+		cp.Data = append(cp.Data, DataPlan{}, DataPlan{})
+		x.TLSData = true
 	}
 	if x.Pre == 3 {
 		steps = append(steps, Step{Kind: kBdat, Data: line("BDAT 10")}, Step{Kind: kPayload, Data: []byte("0123456789"), Wait: 1})
@@ -137,6 +146,13 @@ func genC10(t *Tape, tier string) *Scenario {
 			add(fmt.Sprintf("AUTH SIMPLE %s", b64([]byte("user\x00pw"))), "!503")
 		}
 		add("MAIL FROM:<ok-in-tls@tls.example>", "250")
+		if x.TLSData {
+			add("RCPT TO:<ok-in-tls-rcpt@tls.example>", "250")
+			add("DATA", "354")
+			x.TailIdx = append(x.TailIdx, len(steps))
+			x.Tail = append(x.Tail, "250")
+			steps = append(steps, Step{Kind: kBody, Data: []byte("sent inside TLS\r\n.dot line\r\n.\r\n"), Need: 354, Wait: 1})
+		}
 		if x.TLSBdat {
 			add("RCPT TO:<ok-in-tls-rcpt@tls.example>", "250")
 			x.TailIdx = append(x.TailIdx, len(steps))
@@ -329,6 +345,16 @@ func checkC10(sc *Scenario, h *History) []Violation {
 			}
 		}
 	}
+	if x.TLSData {
+		evs := dataEvents(h, 0)
+		if len(evs) != 2 || string(evs[1].Read) != "sent inside TLS\r\ndot line\r\n" || !evs[1].SawEOF {
+			got := "no second Data call"
+			if len(evs) == 2 {
+				got = fmt.Sprintf("%q (terminal %q)", clip(string(evs[1].Read), 80), evs[1].Terminal)
+			}
+			v("C10.tls-message", "the message sent inside TLS after a plaintext message did not reach the backend as sent: %s", got)
+		}
+	}
 	// the plaintext session was logged out and replaced by one that sees TLS
 	firstTLS := -1
 	for _, e := range h.Events {
@@ -514,7 +540,7 @@ func init() {
 			var out []map[string]int
 			for r := 0; r < reps; r++ {
 				for tl := 0; tl < 5; tl++ {
-					for pre := 0; pre < 4; pre++ {
+					for pre := 0; pre < 5; pre++ {
 						for inj := 0; inj < 3; inj++ {
 							out = append(out, map[string]int{"c10half": 0, "c10tls": tl, "c10pre": pre, "c10inject": inj, "c10injform": r % 3})
 						}
